@@ -17,13 +17,21 @@ Proof.
   cbn [cc_all_states]. apply in_flat_map. exists s. split; [apply IH; lia|]. destruct b; simpl; auto.
 Qed.
 
-Definition chain4_check : bool :=
-  forallb (fun rf => forallb (fun i => forallb (fun a => forallb (fun c =>
-     cert_strict (run_prog env0 (rep_code_prog (desc_of_chain 4 rf) i a c))) five) [[]; [true; true; true]]) (cc_all_states 4))
-  [true; false].
-
-Lemma chain4_checked : chain4_check = true.
+(* stated in the exact shape cc_forallb4 takes (no constant to unfold: the kernel compares the two statements syntactically
+   instead of evaluating one of them lazily) *)
+Lemma chain4_checked :
+  forallb (fun rf => forallb (fun i => forallb (fun a => forallb
+     ((fun rf i a c => cert_strict (run_prog env0 (rep_code_prog (desc_of_chain 4 rf) i a c))) rf i a) five)
+     [[]; [true; true; true]]) (cc_all_states 4)) [true; false] = true.
 Proof. vm_cast_no_check (eq_refl true). Qed.
+
+Lemma cc_forallb4 {A B C D} (f : A -> B -> C -> D -> bool) la lb lc ld :
+  forallb (fun a => forallb (fun b => forallb (fun c => forallb (f a b c) ld) lc) lb) la = true ->
+  forall a b c d, In a la -> In b lb -> In c lc -> In d ld -> f a b c d = true.
+Proof.
+  intros H a b c d Ha Hb Hc Hd. rewrite forallb_forall in H. specialize (H a Ha). rewrite forallb_forall in H.
+  specialize (H b Hb). rewrite forallb_forall in H. specialize (H c Hc). rewrite forallb_forall in H. exact (H d Hd).
+Qed.
 
 Lemma chain4_five rf init anc : List.length init = 4%nat -> anc = [] \/ anc = [true; true; true] ->
   forall c, In c five -> cert_strict (run_prog env0 (rep_code_prog (desc_of_chain 4 rf) init anc c)) = true.
@@ -31,10 +39,9 @@ Proof.
   intros Hi Ha c Hc.
   assert (Hrf : In rf [true; false]) by (destruct rf; [left | right; left]; reflexivity).
   assert (Hanc : In anc [[]; [true; true; true]]) by (destruct Ha as [-> | ->]; [left | right; left]; reflexivity).
-  pose proof (cc_in_all_states 4 init Hi) as Hin.
-  pose proof chain4_checked as H. unfold chain4_check in H. rewrite forallb_forall in H.
-  specialize (H rf Hrf). rewrite forallb_forall in H. specialize (H init Hin). rewrite forallb_forall in H.
-  specialize (H anc Hanc). rewrite forallb_forall in H. exact (H c Hc).
+  exact (cc_forallb4 (fun rf i a c => cert_strict (run_prog env0 (rep_code_prog (desc_of_chain 4 rf) i a c)))
+                     [true; false] (cc_all_states 4) [[]; [true; true; true]] five chain4_checked
+                     rf init anc c Hrf (cc_in_all_states 4 init Hi) Hanc Hc).
 Qed.
 
 Theorem chain4_cert_all_cycles_partial : forall rf init anc cycles,
